@@ -27,12 +27,19 @@ package middlewares
 
 //@ func VerifyV4Signature$1$1
 //@   at-call utils.NewAuthReader {C02} [deferred-check-uses-the-account-secret] requires $3 == account.Secret && $2 == authData && $0 == ctx
+// (C06) a payload hash sent with a presigned upload is verified by a hashing reader below the one that checks the signature
 //@ func VerifyPresignedV4Signature$1$1
+//@   at-call utils.NewHashReader {C06} [the-sha256-reader-wraps-the-installed-reader-with-the-declared-hash] requires $0 == in0 && $1 == hashPayload && $2 == utils.HashTypeSha256Hex
+//@   at-return {C06} [the-sha256-reader-is-what-gets-installed] ensures called("utils.NewHashReader") && ret0 == iface(result("utils.NewHashReader", 0))
+//@ func VerifyPresignedV4Signature$1$2
 //@   at-call utils.NewPresignedAuthReader {C02} [deferred-check-uses-the-account-secret] requires $3 == account.Secret && $2 == authData && $0 == ctx
 
 //@ func VerifyPresignedV4Signature$1
+//@   let hashGiven = ctx.Get("X-Amz-Content-Sha256") != "" && !utils.IsSpecialPayload(ctx.Get("X-Amz-Content-Sha256"))
+//@   at-call fiber.Ctx.Next {C06} [a-payload-hash-sent-with-a-presigned-upload-is-checked] when ctx.Query("X-Amz-Signature") != "" && utils.IsBigDataAction(ctx) && hashGiven :: \
+//@        requires ncalls("middlewares.wrapBodyReader") == 2
 //@   at-call fiber.Ctx.Next {C02} [next-only-when-authenticated] requires ctx.Query("X-Amz-Signature") == "" \
-//@        || (utils.IsBigDataAction(ctx) && called("middlewares.wrapBodyReader")) \
+//@        || (utils.IsBigDataAction(ctx) && ncalls("middlewares.wrapBodyReader") == ite(hashGiven, 2, 1)) \
 //@        || (called("utils.CheckPresignedSignature") && err == nil)
 //@   at-call middlewares.sendResponse {C02} [other-returns-are-errors] requires $1 != nil
 //@   at-call utils.CheckPresignedSignature {C02} [verified-with-the-account-secret] requires $2 == account.Secret && $1 == authData && $0 == ctx
